@@ -89,6 +89,7 @@ class Stats(object):
         self.distinct = set()
         self.samples = []
         self.internal = collections.Counter()
+        self.wire = 0
 
     def add_history(self, h, outs, nontrivial=None):
         for j, o in zip(h, outs):
@@ -103,6 +104,8 @@ class Stats(object):
                 self.ops[it["op"]] += 1
                 key = "%s:%s" % (r.get("status"), r.get("reason"))
                 self.outcomes[key] += 1
+            if o.get("_wire"):
+                self.wire += 1
             for ie in o.get("_internal", []):
                 self.internal["%s@%s" % (ie["exc"], ie["site"])] += 1
             if nontrivial is None or nontrivial(j, o):
@@ -122,6 +125,7 @@ class Stats(object):
             "operation_distribution": dict(self.ops),
             "outcome_distribution": dict(self.outcomes),
             "internal_error_sites": dict(self.internal),
+            "requests_through_the_real_decoder": self.wire,
         }
         if extra:
             cov.update(extra)
